@@ -239,3 +239,36 @@ Definition evm_interface_covered_b (iface : list string) (journalling : list (st
                     | Some _ => true
                     | None => false
                     end) iface.
+
+(* ---------- EVM frame layer (core/vm): the single constructor [ECall] of Model/C12.v stands for every
+   function of *EVM that runs code in a frame.  That is justified when each of them takes the FULL
+   snapshot (evm.snapshot(): state revision + ETX cache length + deleted-hash length + copy of the undo
+   map) and reverts to it (evm.revertToSnapshot), and nobody else in package vm uses the bare StateDB
+   revision. ---------- *)
+Local Open Scope string_scope.
+Definition model_frame_functions : list string := ["Call"; "CallCode"; "DelegateCall"; "StaticCall"; "create"].
+
+Definition evm_frames_covered_b (fr : list (string * nat * nat * nat)) (raw : list string) : bool :=
+  list_eqb String.eqb (map (fun x => fst (fst (fst x))) fr) model_frame_functions
+  && forallb (fun x => let '(_, full, rev, rawn) := x in Nat.leb 1 full && Nat.leb 1 rev && Nat.eqb rawn 0) fr
+  && list_eqb String.eqb raw ["revertToSnapshot"; "snapshot"].
+
+(* side state of the EVM object: every field of struct EVM that package vm assigns is either one of the
+   three lists of [evmst] and then restored by revertToSnapshot, or listed here as not being an effect
+   of a frame:  Batch, interpreter: set once by NewEVM (the CONTENT of the batch is [e_batch], finding F9);
+   StateDB: replaced by Reset between transactions;  callGasTemp: scratch of the gas functions, consumed by
+   the call opcode that follows;  depth: incremented and decremented (defer) by Run. *)
+Definition evm_field_class : list (string * bool) :=
+  [("ETXCache", true); ("CoinbaseDeletedHashes", true); ("CoinbasesDeleted", true);
+   ("Batch", false); ("StateDB", false); ("callGasTemp", false); ("depth", false); ("interpreter", false)].
+
+Fixpoint lookup_b (n : string) (t : list (string * bool)) : option bool :=
+  match t with [] => None | (k, v) :: t' => if String.eqb k n then Some v else lookup_b n t' end.
+
+Definition evm_side_state_covered_b (assigned : list (string * list string)) (snapf : list string) : bool :=
+  forallb (fun x => match lookup_b (fst x) evm_field_class with
+                    | Some r => Bool.eqb r (existsb (String.eqb "revertToSnapshot") (snd x))
+                    | None => false
+                    end) assigned
+  && forallb (fun c => negb (snd c) || existsb (fun x => String.eqb (fst x) (fst c)) assigned) evm_field_class
+  && list_eqb String.eqb snapf ["stateRevision"; "etxCacheLen"; "coinbaseDeletedHashesLen"; "coinbasesDeleted"].
